@@ -1,8 +1,9 @@
 /- driver protocol for Model/Neighbors.lean (C10) -/
 import MdVerif.Model.Neighbors
+import MdVerif.Model.Voxels
 import MdVerif.Driver.Mic
 namespace MdVerif.Driver.NbP
-open MdVerif.Mic MdVerif.Nb MdVerif.Driver.MicP
+open MdVerif.Mic MdVerif.Nb MdVerif.Vox MdVerif.Driver.MicP
 
 def toV3s : List Rat → List V3
   | x :: y :: z :: r => ⟨x, y, z⟩ :: toV3s r
@@ -53,6 +54,42 @@ def handleNb : List String → String
         | _, _ => "bad-op"
       | _, _ => "bad-op"
     | _, _, _, _ => "bad-op"
+  -- voxel search skeleton (Model/Voxels.lean)
+  | "vox" :: "lb" :: x :: lo :: hi :: rest =>
+    match parseRat x, lo.toNat?, hi.toNat?, rest.mapM parseRat with
+    | some x, some lo, some hi, some xs => toString (lowerBound xs x lo hi)
+    | _, _, _, _ => "bad-op"
+  | "vox" :: "ub" :: x :: lo :: hi :: rest =>
+    match parseRat x, lo.toNat?, hi.toNat?, rest.mapM parseRat with
+    | some x, some lo, some hi, some xs => toString (upperBound xs x lo hi)
+    | _, _, _, _ => "bad-op"
+  -- vox ranges <minx> <maxx> <L> <needPeriodic 0/1> <xs…>: the ranges and the bin positions in scanning order
+  | "vox" :: "ranges" :: minx :: maxx :: l :: np :: rest =>
+    match parseRat minx, parseRat maxx, parseRat l, rest.mapM parseRat with
+    | some minx, some maxx, some l, some xs =>
+      let r := xRanges xs minx maxx l (np == "1")
+      let sec := match r.second with | none => "-" | some (a, b) => s!"{a},{b}"
+      s!"R {r.s0},{r.e0} {sec} V {showNats r.visited}"
+    | _, _, _, _ => "bad-op"
+  -- vox index <n> <size> <y>: voxel index and the distance of y/size from the nearest integer (tie margin)
+  | ["vox", "index", n, size, y] =>
+    match n.toNat?, parseRat size, parseRat y with
+    | some n, some size, some y =>
+      let q := y / size
+      let fr := q - (q.floor : Rat)
+      s!"{voxelIndex n size y} {showRat (if fr < 1 - fr then fr else 1 - fr)}"
+    | _, _, _ => "bad-op"
+  -- vox prewrap <9 box entries> <x y z>: the wrapped position and the integer shifts
+  | "vox" :: "prewrap" :: rest =>
+    match rest.mapM parseRat with
+    | some qs =>
+      match mkCell (qs.take 9), qs.drop 9 with
+      | some B, [x, y, z] =>
+        let p := prewrap B ⟨x, y, z⟩
+        let s := prewrapShift B ⟨x, y, z⟩
+        s!"{showV p} {s.1} {s.2.1} {s.2.2}"
+      | _, _ => "bad-op"
+    | none => "bad-op"
   | _ => "bad-op"
 
 end MdVerif.Driver.NbP
